@@ -117,6 +117,9 @@ def instantiate_at(ctx, seq, idx):
         ctx.assume(f)
 
 
+str_chars = z3.Function('str_chars', z3.StringSort(), z3.SeqSort(z3.StringSort()))
+
+
 def cut_loop(it, node, env, spec, iterable):
     from .interp import BreakSig, ContinueSig, UNBOUND, PyRaise, ReturnSig
     ctx = it.ctx
@@ -128,6 +131,11 @@ def cut_loop(it, node, env, spec, iterable):
 
     # ---- ghost iteration state
     mode = None
+    if is_for and isinstance(iterable, pv.SStr):
+        # iterating a string: its characters, as a sequence of one-character strings
+        chars = str_chars(iterable.t)
+        ctx.assume(z3.Length(chars) == z3.Length(iterable.t))
+        iterable = VSeqIter(chars, elem='str')
     if is_for:
         if isinstance(iterable, (VList, VSeqIter, SAny, tuple)):
             mode = 'seq'
